@@ -88,6 +88,7 @@ func (mgr *ConnManager) Start() error {
 func (mgr *ConnManager) Close() error {
 	var errs error
 	conns := mgr.Conns()
+	verifYield("connmgr.snapshot", mgr)
 	for _, conn := range conns {
 		err := conn.Close()
 		if err == nil {
@@ -107,6 +108,7 @@ func (mgr *ConnManager) Stop() error {
 	mgr.mutex.Lock()
 	mgr.stopped = true
 	mgr.mutex.Unlock()
+	verifYield("connmgr.stopped", mgr)
 	if err := mgr.Close(); err != nil {
 		return err
 	}
